@@ -65,6 +65,7 @@ type Gen struct {
 	CaseVary bool // vary letter case of command and option names
 	NoSystem bool // exclude AUTH/SELECT/QUIT/CONFIG
 	Only     []string
+	Prefix   string // per-connection key prefix
 	idx      int
 	args     []string
 }
@@ -83,7 +84,7 @@ func allBytes() string {
 }
 
 func (g *Gen) key() string {
-	k := fmt.Sprintf("k%d;", g.idx)
+	k := fmt.Sprintf("%sk%d;", g.Prefix, g.idx)
 	if g.Binary {
 		k += keySuffix[g.d(len(keySuffix), "keysfx")]
 	}
@@ -91,7 +92,7 @@ func (g *Gen) key() string {
 }
 
 func (g *Gen) key2(tag string) string {
-	k := fmt.Sprintf("%s%d;", tag, g.idx)
+	k := fmt.Sprintf("%s%s%d;", g.Prefix, tag, g.idx)
 	if g.Binary {
 		k += keySuffix[g.d(len(keySuffix), "keysfx")]
 	}
@@ -345,7 +346,11 @@ func (g *Gen) valid(r *Req, name string) {
 				a = append(a, g.cs("COUNT"), strconv.Itoa(cnt))
 			}
 		}
-		r.Expect = one(fmt.Sprintf("Scan cursor=%d count=%d", cur, cnt))
+		pat := "*"
+		if r.HasPat {
+			pat = r.Pattern
+		}
+		r.Expect = one(fmt.Sprintf("Scan cursor=%d count=%d match=%s", cur, cnt, GlobBits(pat)))
 	case "SET":
 		v := g.val()
 		a = append(a, k, v)
@@ -418,7 +423,7 @@ func (g *Gen) valid(r *Req, name string) {
 		last := map[string]string{}
 		var order []string
 		for i := 0; i < n; i++ {
-			pk := fmt.Sprintf("k%d;%d", g.idx, g.d(3, "pk")) // duplicates are frequent
+			pk := fmt.Sprintf("%sk%d;%d", g.Prefix, g.idx, g.d(3, "pk")) // duplicates are frequent
 			if g.Binary && g.d(3, "pksfx") == 0 {
 				pk += keySuffix[g.d(len(keySuffix), "keysfx")]
 			}
@@ -767,4 +772,38 @@ func (g *Gen) spoil(r *Req) {
 	r.Args = append([]string{}, a...)
 	// QUIT keeps its meaning whatever follows it
 	r.Quit = wasQuit
+}
+
+// ScanProbes are the keys a SCAN pattern is evaluated on (handler side and grammar side).
+var ScanProbes = []string{"", "k", "k1", "kk", "abc", "a.c", "x+y", "xxy", "xy", "h(llo", "a|b", "a", "b", "$k", "{a}", "^k", "hello", "k\nx"}
+
+// globMatch is a direct recursive Redis-glob matcher for patterns made of '*', '?' and literals.
+func globMatch(p, s string) bool {
+	if p == "" {
+		return s == ""
+	}
+	switch p[0] {
+	case '*':
+		for i := 0; i <= len(s); i++ {
+			if globMatch(p[1:], s[i:]) {
+				return true
+			}
+		}
+		return false
+	case '?':
+		return s != "" && globMatch(p[1:], s[1:])
+	}
+	return s != "" && s[0] == p[0] && globMatch(p[1:], s[1:])
+}
+
+// GlobBits renders which probes a glob pattern selects.
+func GlobBits(p string) string {
+	b := make([]byte, len(ScanProbes))
+	for i, k := range ScanProbes {
+		b[i] = '0'
+		if globMatch(p, k) {
+			b[i] = '1'
+		}
+	}
+	return string(b)
 }
